@@ -3,9 +3,9 @@
    trans-ids N1 N2 for new entries, and the names a transform may use (with python's string order). *)
 WRoot   == "root"
 GenTids == {"A", "B", "D", "DA", "N1", "N2"}
-GenTree == [A  |-> [name |-> "a", parent |-> WRoot, kind |-> "file", ver |-> TRUE],
-            B  |-> [name |-> "b", parent |-> WRoot, kind |-> "file", ver |-> TRUE],
-            D  |-> [name |-> "d", parent |-> WRoot, kind |-> "directory", ver |-> TRUE],
-            DA |-> [name |-> "a", parent |-> "D", kind |-> "file", ver |-> TRUE]]
+GenTree == [A  |-> [name |-> "a", parent |-> WRoot, kind |-> "file", ver |-> TRUE, x |-> FALSE],
+            B  |-> [name |-> "b", parent |-> WRoot, kind |-> "file", ver |-> TRUE, x |-> FALSE],
+            D  |-> [name |-> "d", parent |-> WRoot, kind |-> "directory", ver |-> TRUE, x |-> FALSE],
+            DA |-> [name |-> "a", parent |-> "D", kind |-> "file", ver |-> TRUE, x |-> FALSE]]
 GenRank == [a |-> 1, b |-> 2, c |-> 3, d |-> 4, e |-> 5]
 =============================================================================
